@@ -345,6 +345,7 @@ type ContractSet struct {
 	Hooks     []*Hook
 	Ghosts    []GhostDecl
 	Lemmas    []*Lemma
+	OrderAssumes []orderNote
 	Aliases   map[string]map[string]string // pkg -> alias -> import path
 	Source    map[string]string            // pkg -> where contracts were read from
 }
@@ -512,6 +513,14 @@ func (cs *ContractSet) parseContractFile(path, pkgPath string) error {
 			for _, n := range strings.Fields(rest) {
 				cs.PurePkgs[n] = true
 			}
+		case "order_insensitive":
+			// order_insensitive <func> <site> because <reason>   (an assumption, listed in evidence)
+			f := strings.Fields(rest)
+			i := strings.Index(rest, " because ")
+			if len(f) < 4 || i < 0 {
+				return fmt.Errorf("%s:%d: order_insensitive <func> <site> because <reason>", path, l.no)
+			}
+			cs.OrderAssumes = append(cs.OrderAssumes, orderNote{fn: f[0], site: f[1], reason: strings.TrimSpace(rest[i+9:])})
 		case "hookset":
 			curSet = rest
 			cur, curLoop = nil, nil
